@@ -136,8 +136,8 @@ func (p *Population) ByPath(path string) *AcctInfo { return p.byPath[path] }
 // ByKey finds an account by public key.
 func (p *Population) ByKey(k []byte) *AcctInfo { return p.byKey[string(k)] }
 
-// stdPopulation is the default population: 20 accounts in Wallet 1, 4 in Wallet 2 (one of them
-// with an unknown passphrase), an empty distributed Wallet 3.
+// stdPopulation is the default population: 20 accounts in Wallet 1, 6 in Wallet 2 (one of them
+// with an unknown passphrase, two with nested names), an empty distributed Wallet 3.
 var (
 	stdPopOnce sync.Once
 	stdPop     *Population
@@ -155,6 +155,8 @@ func StdPopulation(t *testing.T) *Population {
 			w2.Accounts = append(w2.Accounts, fmt.Sprintf("Account %d", i))
 		}
 		w2.Accounts = append(w2.Accounts, "Sealed")
+		// Account names may contain the path separator: these two live beside "Wallet 2/Account 0".
+		w2.Accounts = append(w2.Accounts, "Account 0/sub", "Account 0/sub/deep")
 		stdPop = NewPopulation(t, "std", []WalletSpec{w1, w2, {Name: "Wallet 3", Kind: "distributed"}})
 	})
 	return stdPop
@@ -165,7 +167,7 @@ var (
 	bigPop     *Population
 )
 
-// BigPopulation returns a process-wide population of 520 accounts in one wallet, used by the
+// BigPopulation returns a process-wide population of 523 accounts in one wallet (three with nested names), used by the
 // large-batch checks.  Its fetcher is shared between runs so that accounts are unlocked once.
 func BigPopulation(t *testing.T) *Population {
 	bigPopOnce.Do(func() {
@@ -173,6 +175,8 @@ func BigPopulation(t *testing.T) *Population {
 		for i := 0; i < 520; i++ {
 			w.Accounts = append(w.Accounts, fmt.Sprintf("V%03d", i))
 		}
+		// Account names may contain the path separator: these live beside "Big/V000" and "Big/V001".
+		w.Accounts = append(w.Accounts, "V000/1", "V001/a/b", "V000/2")
 		bigPop = NewPopulation(t, "big", []WalletSpec{w})
 		bigPop.Shared = true
 	})
